@@ -1,37 +1,45 @@
 #!/venv/bin/python
-"""Development aid: print the seeded-change table of DESIGN.md 8b from /verif/seeded/*/meta.json (markdown)."""
+"""Development aid: print the seeded-change table of DESIGN.md 8b (markdown) from /verif/seeded/*/meta.json and
+/verif/seeded/ROBUSTNESS.json ({"<change>": {"<check>": "k/3"}} = how many of VERIF_SEED 1,2,3 the quick tier caught it).
+usage: tools/kill_matrix.py [--summary]"""
 import json
 import os
 import sys
 
 ROOT = os.path.dirname(os.path.dirname(os.path.abspath(__file__)))
+rob_path = os.path.join(ROOT, "seeded", "ROBUSTNESS.json")
+rob = json.load(open(rob_path)) if os.path.exists(rob_path) else {}
 rows = []
 for d in sorted(os.listdir(os.path.join(ROOT, "seeded"))):
     mp = os.path.join(ROOT, "seeded", d, "meta.json")
     if not os.path.exists(mp):
         continue
     m = json.load(open(mp))
-    caught = m.get("caught_by") or []
-    checks = m.get("checks", {})
-    missed = sorted(c for c, v in checks.items() if v.get("exit") == 0)
-    status = m.get("status", "")
     what = (m.get("what") or "").replace("|", "/")
     needs = (m.get("needs") or "").replace("|", "/")
-    if status == "obsolete":
-        verdict = "moot (see note)"
-    elif not m.get("applies", True):
-        verdict = "does not apply to the final tree"
-    elif caught:
-        verdict = "**" + ", ".join(caught) + "**" + ((" (not: " + ", ".join(missed) + ")") if missed else "")
+    own = d.split("-")[0]
+    r = rob.get(d, {})
+    others = sorted(c for c in (m.get("caught_by") or []) if c != own)
+    status = m.get("status", "")
+    if status in ("obsolete", "moot", "superseded"):
+        verdict = status + ": " + (m.get("note") or "")[:160]
+        kind = "other"
+    elif own in r:
+        verdict = f"{own} {r[own]}" + (("; also " + ", ".join(others)) if others else "")
+        k = int(r[own].split("/")[0])
+        kind = "caught" if k == 3 else ("partly" if k > 0 else "missed")
+        if kind != "caught" and others:
+            kind = "caught_elsewhere"
     else:
-        verdict = "MISSED" + ((" by " + ", ".join(missed)) if missed else "")
-    rows.append((d, what, needs, verdict))
+        verdict = "not measured"
+        kind = "other"
+    rows.append((d, what, needs, verdict, kind))
 if "--summary" in sys.argv:
-    n = len(rows)
-    c = sum(1 for r in rows if r[3].startswith("**"))
-    print(f"{n} changes, {c} caught, {sum(1 for r in rows if r[3].startswith('MISSED'))} missed, {n - c - sum(1 for r in rows if r[3].startswith('MISSED'))} other")
+    import collections
+
+    print(dict(collections.Counter(r[4] for r in rows)), len(rows))
     sys.exit(0)
-print("| change | what it does | what it needs to manifest | caught by (quick tier, VERIF_SEED=1) |")
+print("| change | what it does | what it needs to manifest | quick tier of its own check at VERIF_SEED 1, 2, 3 |")
 print("|---|---|---|---|")
-for d, what, needs, verdict in rows:
+for d, what, needs, verdict, kind in rows:
     print(f"| {d} | {what} | {needs} | {verdict} |")
